@@ -72,22 +72,26 @@ UNITS.append(aors_n('sub'))
 # ------------------------------------------------------------------ reusable cut of the expanded MPN_COPY_INCR / MPN_COPY_DECR loop
 def copy_loop(K, direction='incr', tag=''):
     """loop of MPN_COPY_INCR/DECR after macro expansion (locals __n, __dst, __src, __x).
-    K: ghost position relative to the copy's dst/src base; total length is V_cn+1.
-    After the cut + the macro's final store: K in [0,V_cn] ==> dst[K] == value src[K] had before the copy."""
+    K: ghost position relative to the copy's dst/src base, or a list of such positions; total length is V_cn+1.
+    After the cut + the macro's final store: each K in [0,V_cn] ==> dst[K] == value src[K] had before the copy."""
+    Ks = K if isinstance(K, (list, tuple)) else [K]
+    snap = 'mp_size_t V_cn = __n; mp_ptr V_cd = BASED; mp_srcptr V_cs = BASES; '
+    invs = []
+    for t, k in enumerate(Ks):
+        snap += 'long V_cK%d = (%s); mp_limb_t V_cS%d = (0 <= V_cK%d && V_cK%d <= V_cn) ? V_cs[V_cK%d] : 0; ' % (t, k, t, t, t, t)
+        if direction == 'incr':
+            invs.append('((0 <= V_cK%(t)d && V_cK%(t)d <= V_cn) ==> ((V_cK%(t)d > V_cn - __n ==> V_cs[V_cK%(t)d] == V_cS%(t)d) && (V_cK%(t)d == V_cn - __n ==> __x == V_cS%(t)d) && (V_cK%(t)d < V_cn - __n ==> V_cd[V_cK%(t)d] == V_cS%(t)d)))' % {'t': t})
+        else:
+            invs.append('((0 <= V_cK%(t)d && V_cK%(t)d <= V_cn) ==> ((V_cK%(t)d < __n ==> V_cs[V_cK%(t)d] == V_cS%(t)d) && (V_cK%(t)d == __n ==> __x == V_cS%(t)d) && (V_cK%(t)d > __n ==> V_cd[V_cK%(t)d] == V_cS%(t)d)))' % {'t': t})
     if direction == 'incr':
-        snap = 'mp_size_t V_cn = __n; mp_ptr V_cd = __dst; mp_srcptr V_cs = __src - 1; long V_cK = (K); mp_limb_t V_cS = (0 <= V_cK && V_cK <= V_cn) ? V_cs[V_cK] : 0;'
-        inv = '''(1 <= __n && __n <= V_cn && __dst == V_cd + (V_cn - __n) && __src == V_cs + (V_cn - __n) + 1
-          && ((0 <= V_cK && V_cK <= V_cn) ==> ((V_cK > V_cn - __n ==> V_cs[V_cK] == V_cS) && (V_cK == V_cn - __n ==> __x == V_cS)
-                                            && (V_cK < V_cn - __n ==> V_cd[V_cK] == V_cS))))'''
+        snap = snap.replace('BASED', '__dst').replace('BASES', '__src - 1')
+        inv = '(1 <= __n && __n <= V_cn && __dst == V_cd + (V_cn - __n) && __src == V_cs + (V_cn - __n) + 1 && ' + ' && '.join(invs) + ')'
         hv = '{ long V_d = nondet_long (); __CPROVER_assume (0 <= V_d && V_d < V_cn); __n = V_cn - V_d; __dst = V_cd + V_d; __src = V_cs + V_d + 1; }'
     else:
-        # DECR: __dst = dst + (n-1), walks down.  Position of the limb held in __x is p = __n (counting from the base), V_cd/V_cs are bases.
-        snap = 'mp_size_t V_cn = __n; mp_ptr V_cd = __dst - __n; mp_srcptr V_cs = __src + 1 - __n; long V_cK = (K); mp_limb_t V_cS = (0 <= V_cK && V_cK <= V_cn) ? V_cs[V_cK] : 0;'
-        inv = '''(1 <= __n && __n <= V_cn && __dst == V_cd + __n && __src == V_cs + __n - 1
-          && ((0 <= V_cK && V_cK <= V_cn) ==> ((V_cK < __n ==> V_cs[V_cK] == V_cS) && (V_cK == __n ==> __x == V_cS)
-                                            && (V_cK > __n ==> V_cd[V_cK] == V_cS))))'''
+        snap = snap.replace('BASED', '__dst - __n').replace('BASES', '__src + 1 - __n')
+        inv = '(1 <= __n && __n <= V_cn && __dst == V_cd + __n && __src == V_cs + __n - 1 && ' + ' && '.join(invs) + ')'
         hv = '{ long V_d = nondet_long (); __CPROVER_assume (1 <= V_d && V_d <= V_cn); __n = V_d; __dst = V_cd + V_d; __src = V_cs + V_d - 1; }'
-    return dict(snap=snap.replace('(K)', '(%s)' % K), inv=inv, dec='__n', havoc=hv,
+    return dict(snap=snap, inv=inv, dec='__n', havoc=hv,
                 scalars=['__x'], havoc_targets=['__n', '__dst', '__src'],
                 slices=[('V_cd', '(V_cn + 1) * 8')])
 
